@@ -658,3 +658,258 @@ Theorem C01_e2e_decode_ranges_pairs : forall HO, hash_ok HO ->
        exists s e, (off = s * 1024)%N /\ (s < e)%N /\ (e <= nchunks (blen HO data))%N /\ d = chunk_bytes HO data s e).
 Proof. exact e2e_decode_ranges_pairs. Qed.
 Print Assumptions C01_e2e_decode_ranges_pairs.
+
+(* ======== Gap audit: ANY CLAIMED SIZE.  Every theorem above fixes the decoder's tree to the blob's own
+   (mkTree (blen HO data) bs); the property lets the decoder be told any size.  Below the decoders / drivers are set up
+   with the TRUE root hash of data, the tree mkTree size' bs of an ARBITRARY claimed size size', any block size
+   (no bound on bs is needed), any well-formed query, and run on EVERY stream up to the first error.
+   Proofs in Proofs/GapKInv.v, GapKRun.v, GapKTop.v. ======== *)
+From BaoV Require Import Proofs.GapPairs Proofs.GapKInv Proofs.GapKRun Proofs.GapKTop.
+
+(* same_path n' n a' b' a b: [a',b') in the tree over n' chunks and [a,b) in the tree over n chunks are reached from
+   the two roots [0,n'), [0,n) by the same sequence of left / right descents (both trees split an interval at the
+   largest power of two below its length).  Both are nodes of their trees (aligned, Proofs/GapPairs.v: an aligned
+   power-of-two block cut at the end of the blob); for n' = n they are the same node *)
+Theorem C01_same_path_def : forall n' n,
+  same_path n' n 0 n' 0 n /\
+  (forall a' b' a b, same_path n' n a' b' a b -> 2 <= b' - a' -> 2 <= b - a ->
+     same_path n' n a' (a' + next_pow2 (b' - a') / 2) a (a + next_pow2 (b - a) / 2) /\
+     same_path n' n (a' + next_pow2 (b' - a') / 2) b' (a + next_pow2 (b - a) / 2) b) /\
+  (forall P : N -> N -> N -> N -> Prop,
+     P 0 n' 0 n ->
+     (forall a' b' a b, P a' b' a b -> 2 <= b' - a' -> 2 <= b - a ->
+        P a' (a' + next_pow2 (b' - a') / 2) a (a + next_pow2 (b - a) / 2) /\
+        P (a' + next_pow2 (b' - a') / 2) b' (a + next_pow2 (b - a) / 2) b) ->
+     forall a' b' a b, same_path n' n a' b' a b -> P a' b' a b) /\
+  (1 <= n' -> 1 <= n -> forall a' b' a b, same_path n' n a' b' a b -> aligned n' a' b' /\ aligned n a b) /\
+  (n' = n -> forall a' b' a b, same_path n' n a' b' a b -> a' = a /\ b' = b).
+Proof. exact same_path_def. Qed.
+Print Assumptions C01_same_path_def.
+
+(* true_item HO data size' i: what is guaranteed of an item i yielded by a decoder told the size size'.
+   LEAF: it carries the bytes of the node [s,e) of the TRUE tree at the true offset s * 1024: d is the slice of the
+   blob at off of d's length, inside the blob, not empty unless the blob is; the claimed node [s,e') on the same path
+   starts at the same chunk and has the same byte length in the claimed geometry.
+   PARENT: yielded under the id nd of the node [a',e') of the CLAIMED tree, it carries the two chaining values of the
+   children of the node [a,e) of the TRUE tree on the same path, which is the true pair of the true node
+   a + next_pow2 (e - a) / 2 - 1 (and this is nd itself whenever the chunk counts agree: C01_any_size_same_chunks_pairs;
+   it can differ otherwise: C01_any_size_node_id_refuted) *)
+Theorem C01_true_item_def : forall HO (data : bytes HO) (size' : N),
+  (forall off d, true_item HO data size' (ILeaf off d) <->
+     exists s e e', same_path (nchunks size') (nchunks (blen HO data)) s e' s e /\
+       off = s * 1024 /\ s < e /\ e <= nchunks (blen HO data) /\
+       d = chunk_bytes HO data s e /\ d = slice HO off (blen HO d) data /\
+       off + blen HO d <= blen HO data /\ (blen HO data = 0 \/ 0 < blen HO d) /\
+       blen HO d = span_bytes size' s e') /\
+  (forall nd l r, true_item HO data size' (IParent nd l r) <->
+     exists a' e' a e, same_path (nchunks size') (nchunks (blen HO data)) a' e' a e /\
+       2 <= e' - a' /\ 2 <= e - a /\
+       nd = a' + next_pow2 (e' - a') / 2 - 1 /\
+       l = cv HO data a (a + next_pow2 (e - a) / 2) false /\
+       r = cv HO data (a + next_pow2 (e - a) / 2) e false /\
+       (l, r) = true_pair HO data (a + next_pow2 (e - a) / 2 - 1)).
+Proof. exact true_item_def. Qed.
+Print Assumptions C01_true_item_def.
+
+(* both iterators, any claimed size, any block size, any well-formed query, EVERY stream: every item yielded before
+   the outcome is a true item of the blob *)
+Theorem C01_any_size_sync : forall HO, hash_ok HO ->
+  forall (data : bytes HO) (size' bs : N) (q : ranges),
+  size' <= 2 ^ 63 -> blen HO data <= 2 ^ 63 -> wf_ranges q = true ->
+  forall (stream : bytes HO) ys o st,
+  dec_run HO (dec_new HO (root_hash HO data) (mkTree size' bs) stream q) = (ys, o, st) ->
+  forall i, In i ys -> true_item HO data size' i.
+Proof. exact any_size_sync. Qed.
+Print Assumptions C01_any_size_sync.
+
+Theorem C01_any_size_fsm : forall HO, hash_ok HO ->
+  forall (data : bytes HO) (size' bs : N) (q : ranges),
+  size' <= 2 ^ 63 -> blen HO data <= 2 ^ 63 -> wf_ranges q = true ->
+  forall (stream : bytes HO) ys o st,
+  rd_run HO (rd_new HO (root_hash HO data) q (mkTree size' bs) stream) = (ys, o, st) ->
+  forall i, In i ys -> true_item HO data size' i.
+Proof. exact any_size_fsm. Qed.
+Print Assumptions C01_any_size_fsm.
+
+(* the plan decoders (any step function whose accepted steps compare the expected value and yield what they read)
+   over the claimed plan, started from the true root value *)
+Theorem C01_any_size_plan : forall HO, hash_ok HO ->
+  forall (data data' : bytes HO) (bs : N) (q : ranges),
+  blen HO data <= 2 ^ 63 -> blen HO data' <= 2 ^ 63 -> wf_ranges q = true ->
+  forall step, step_ok2 HO step -> forall plan root (stream : bytes HO),
+  plan = pre_plan (blen HO data') 0 bs (truncate_ranges q (blen HO data')) -> root = root_hash HO data ->
+  Forall (true_item HO data (blen HO data')) (r_items HO (dec_items HO step plan [root] stream)).
+Proof. exact claimed_plan_items. Qed.
+Print Assumptions C01_any_size_plan.
+
+Theorem C01_step_ok2_def : forall HO, hash_ok HO ->
+  (forall step, step_ok2 HO step <->
+     forall c stk enc i stk' enc', step c stk enc = (Ok i, stk', enc') ->
+       match c with
+       | CParent node ir lf rt _ =>
+           exists l r stk0, stk = parent_cv HO l r ir :: stk0 /\ length l = 32%nat /\ length r = 32%nat /\
+             stk' = (if lf then [l] else []) ++ (if rt then [r] else []) ++ stk0 /\ i = IParent node l r
+       | CLeaf s size ir _ =>
+           exists buf stk0, stk = hash_subtree HO s buf ir :: stk0 /\ blen HO buf = size /\ stk' = stk0 /\
+             i = ILeaf (to_bytes s) buf
+       end) /\
+  step_ok2 HO (step_sync HO) /\ step_ok2 HO (step_fsm HO).
+Proof.
+  intros HO HOK. split; [intro step; reflexivity|]. split; [exact (step_sync_ok2 HO HOK)|exact (step_fsm_ok2 HO HOK)].
+Qed.
+Print Assumptions C01_step_ok2_def.
+
+(* with the same NUMBER of chunks as the blob (in particular with the true size) every pair yielded is the true pair
+   of the node it is yielded for *)
+Theorem C01_any_size_same_chunks_pairs : forall HO, hash_ok HO ->
+  forall (data : bytes HO) (size' bs : N) (q : ranges),
+  size' <= 2 ^ 63 -> blen HO data <= 2 ^ 63 -> wf_ranges q = true ->
+  nchunks size' = nchunks (blen HO data) ->
+  forall (stream : bytes HO) ys o,
+  (exists st, dec_run HO (dec_new HO (root_hash HO data) (mkTree size' bs) stream q) = (ys, o, st)) \/
+  (exists st, rd_run HO (rd_new HO (root_hash HO data) q (mkTree size' bs) stream) = (ys, o, st)) ->
+  forall nd l r, In (IParent nd l r) ys -> (l, r) = true_pair HO data nd.
+Proof. exact any_size_same_chunks_pairs. Qed.
+Print Assumptions C01_any_size_same_chunks_pairs.
+
+(* both drivers, any target, any outboard carrying the true root hash and the CLAIMED tree: the returned target and
+   outboard are the old ones with a list ys of TRUE items applied (leaves written, parents saved, in order) *)
+Theorem C01_any_size_decode_ranges : forall HO, hash_ok HO ->
+  forall (data : bytes HO) (size' bs : N) (q : ranges),
+  size' <= 2 ^ 63 -> blen HO data <= 2 ^ 63 -> wf_ranges q = true ->
+  forall (stream target : bytes HO) (ob : outboard HO),
+  ob_root ob = root_hash HO data -> ob_tree ob = mkTree size' bs ->
+  forall res target' ob',
+  (exists st', decode_ranges HO stream q target ob = (res, target', ob', st')) \/
+  (exists st', decode_ranges_fsm HO stream q target ob = (res, target', ob', st')) ->
+  exists ys o, let a := apply_items HO ys target ob in
+    res = ranges_result (a_res HO a) o /\ target' = a_target HO a /\ ob' = a_ob HO a /\
+    forall i, In i ys -> true_item HO data size' i.
+Proof. exact any_size_decode_ranges. Qed.
+Print Assumptions C01_any_size_decode_ranges.
+
+(* every byte the drivers write is the blob's, at its offset, whatever the claimed size, the stream and the target:
+   nothing from the blob's length on is touched, and below it every chunk of the (padded, C01_pad_def) result is the
+   (padded) old chunk or the blob's chunk *)
+Theorem C01_any_size_decode_ranges_bytes : forall HO, hash_ok HO ->
+  forall (data : bytes HO) (size' bs : N) (q : ranges),
+  size' <= 2 ^ 63 -> blen HO data <= 2 ^ 63 -> wf_ranges q = true ->
+  forall (stream target : bytes HO) (ob : outboard HO),
+  ob_root ob = root_hash HO data -> ob_tree ob = mkTree size' bs ->
+  forall res target' ob',
+  (exists st', decode_ranges HO stream q target ob = (res, target', ob', st')) \/
+  (exists st', decode_ranges_fsm HO stream q target ob = (res, target', ob', st')) ->
+  let n := length data in
+  skipn n target' = skipn n target /\
+  (forall c, c < nchunks (blen HO data) ->
+     chunk_bytes HO (pad HO n target') c (c + 1) = chunk_bytes HO (pad HO n target) c (c + 1) \/
+     chunk_bytes HO (pad HO n target') c (c + 1) = chunk_bytes HO data c (c + 1)) /\
+  (length target = length data ->
+     length target' = length data /\
+     forall c, c < nchunks (blen HO data) ->
+       chunk_bytes HO target' c (c + 1) = chunk_bytes HO target c (c + 1) \/
+       chunk_bytes HO target' c (c + 1) = chunk_bytes HO data c (c + 1)).
+Proof. exact any_size_decode_ranges_bytes. Qed.
+Print Assumptions C01_any_size_decode_ranges_bytes.
+
+(* REFUTED as stated ("every hash pair it stores equals the corresponding pair of the true blob"): the node id under
+   which a pair is yielded / saved can differ from the node of the true tree it belongs to.  Blob of three chunks,
+   claimed size 2048: the root pair is yielded as IParent 0 and stored in the slot of node 0, but it is the true pair
+   of node 1 of the blob and not that of node 0 (the next item is then rejected) *)
+Theorem C01_any_size_node_id_refuted :
+  exists HO, hash_ok HO /\
+  exists (data stream : bytes HO) (size' bs : N) (q : ranges) (l r : hash HO),
+    size' <= 2 ^ 63 /\ blen HO data <= 2 ^ 63 /\ bs <= 10 /\ wf_ranges q = true /\
+    (exists st c, dec_run HO (dec_new HO (root_hash HO data) (mkTree size' bs) stream q)
+                  = ([IParent 0 l r], Failed (DLeafHashMismatch c), st)) /\
+    (exists st c, rd_run HO (rd_new HO (root_hash HO data) q (mkTree size' bs) stream)
+                  = ([IParent 0 l r], Failed (DLeafHashMismatch c), st)) /\
+    (l, r) = true_pair HO data 1 /\ (l, r) <> true_pair HO data 0 /\
+    (let ob := mkOb PreIO (root_hash HO data) (mkTree size' bs) [] in
+     ob_offset HO ob 0 = Some 0 /\
+     (exists res target' ob' st', decode_ranges HO stream q [] ob = (res, target', ob', st') /\ ob_data ob' = l ++ r) /\
+     (exists res target' ob' st', decode_ranges_fsm HO stream q [] ob = (res, target', ob', st') /\ ob_data ob' = l ++ r)).
+Proof. exact any_size_node_id_witness. Qed.
+Print Assumptions C01_any_size_node_id_refuted.
+
+(* non-vacuity: a wrong claimed size (another chunk count) and a stream on which four items are yielded before the
+   error, by both iterators *)
+Theorem C01_any_size_nonvacuous :
+  exists HO, hash_ok HO /\
+  exists (data stream : bytes HO) (size' bs : N) (q : ranges),
+    size' <= 2 ^ 63 /\ blen HO data <= 2 ^ 63 /\ bs <= 10 /\ wf_ranges q = true /\ size' <> blen HO data /\
+    nchunks size' <> nchunks (blen HO data) /\
+    (exists ys e st, dec_run HO (dec_new HO (root_hash HO data) (mkTree size' bs) stream q) = (ys, Failed e, st) /\
+                     length ys = 4%nat /\ ys = firstn 4 (honest HO data bs q)) /\
+    (exists ys e st, rd_run HO (rd_new HO (root_hash HO data) q (mkTree size' bs) stream) = (ys, Failed e, st) /\
+                     length ys = 4%nat /\ ys = firstn 4 (honest HO data bs q)).
+Proof. exact any_size_nonvacuous. Qed.
+Print Assumptions C01_any_size_nonvacuous.
+
+(* ---- WHICH node ids are right under a wrong claimed size (proofs in Proofs/GapKShape.v, GapKShapeTop.v) ----
+   right_id_item: a true item that, if a parent, carries the true pair of the node it is yielded for;
+   wrong_id_item: a parent that carries the true pair of ANOTHER node nd' of the blob *)
+From BaoV Require Import Proofs.GapKShape Proofs.GapKShapeTop.
+
+Theorem C01_id_items_def : forall HO (data : bytes HO) (size' : N) (i : item HO),
+  (right_id_item HO data size' i <->
+     true_item HO data size' i /\ forall nd l r, i = IParent nd l r -> (l, r) = true_pair HO data nd) /\
+  (wrong_id_item HO data size' i <->
+     exists nd l r nd', i = IParent nd l r /\ nd' <> nd /\ (l, r) = true_pair HO data nd' /\ true_item HO data size' i).
+Proof. exact id_items_def. Qed.
+Print Assumptions C01_id_items_def.
+
+(* WHAT IS GUARANTEED INSTEAD of "every pair is the pair of its node": for both iterators, any claimed size, any
+   block size, any well-formed query and EVERY stream the items yielded are ys1 ++ ys2 where
+     - every item of ys1 is a true item under its right id (leaves: true bytes at the true offset; parents: the true
+       pair of the node they are yielded for),
+     - ys2 consists of PARENTS only, each carrying the true pair of another node of the blob (the first of them is the
+       right-spine node at which the claimed and the true geometry split differently), and
+     - once ys2 has started no leaf is yielded any more and the run does not finish.
+   Hence: no data byte is ever yielded after a wrongly labelled pair, and a run that finishes has labelled every pair
+   correctly *)
+Theorem C01_any_size_ids : forall HO, hash_ok HO ->
+  forall (data : bytes HO) (size' bs : N) (q : ranges),
+  size' <= 2 ^ 63 -> blen HO data <= 2 ^ 63 -> wf_ranges q = true ->
+  forall (stream : bytes HO) ys o,
+  (exists st, dec_run HO (dec_new HO (root_hash HO data) (mkTree size' bs) stream q) = (ys, o, st)) \/
+  (exists st, rd_run HO (rd_new HO (root_hash HO data) q (mkTree size' bs) stream) = (ys, o, st)) ->
+  exists ys1 ys2, ys = ys1 ++ ys2 /\
+    (forall i, In i ys1 -> right_id_item HO data size' i) /\
+    (forall i, In i ys2 -> wrong_id_item HO data size' i) /\
+    (ys2 <> [] -> o <> Finished).
+Proof. exact any_size_ids. Qed.
+Print Assumptions C01_any_size_ids.
+
+(* the drivers: the items applied to the target / outboard are ys1 ++ ys2 as above; if a wrongly labelled pair was
+   saved the driver does not return Ok *)
+Theorem C01_any_size_decode_ranges_ids : forall HO, hash_ok HO ->
+  forall (data : bytes HO) (size' bs : N) (q : ranges),
+  size' <= 2 ^ 63 -> blen HO data <= 2 ^ 63 -> wf_ranges q = true ->
+  forall (stream target : bytes HO) (ob : outboard HO),
+  ob_root ob = root_hash HO data -> ob_tree ob = mkTree size' bs ->
+  forall res target' ob',
+  (exists st', decode_ranges HO stream q target ob = (res, target', ob', st')) \/
+  (exists st', decode_ranges_fsm HO stream q target ob = (res, target', ob', st')) ->
+  exists ys1 ys2, let a := apply_items HO (ys1 ++ ys2) target ob in
+    target' = a_target HO a /\ ob' = a_ob HO a /\
+    (forall i, In i ys1 -> right_id_item HO data size' i) /\
+    (forall i, In i ys2 -> wrong_id_item HO data size' i) /\
+    (ys2 <> [] -> res <> Ok tt).
+Proof. exact any_size_decode_ranges_ids. Qed.
+Print Assumptions C01_any_size_decode_ranges_ids.
+
+(* non-vacuity with both parts non-empty: blob of seven chunks, claimed size 6144, honest stream: eight items (four
+   leaves) under their right ids, then the true pair of node 5 under the id 4, then an error *)
+Theorem C01_any_size_ids_nonvacuous :
+  exists HO, hash_ok HO /\
+  exists (data stream : bytes HO) (size' bs : N) (q : ranges) ys1 (l r : hash HO),
+    size' <= 2 ^ 63 /\ blen HO data <= 2 ^ 63 /\ bs <= 10 /\ wf_ranges q = true /\
+    (exists e st, dec_run HO (dec_new HO (root_hash HO data) (mkTree size' bs) stream q)
+                  = (ys1 ++ [IParent 4 l r], Failed e, st)) /\
+    (exists e st, rd_run HO (rd_new HO (root_hash HO data) q (mkTree size' bs) stream)
+                  = (ys1 ++ [IParent 4 l r], Failed e, st)) /\
+    ys1 = firstn 8 (honest HO data bs q) /\ length ys1 = 8%nat /\
+    (l, r) = true_pair HO data 5.
+Proof. exact any_size_ids_nonvacuous. Qed.
+Print Assumptions C01_any_size_ids_nonvacuous.
